@@ -20,7 +20,7 @@ import (
 
 // C20 - behaviour depends on the schema's content, not on how it was loaded.
 
-const ruleC20 = "rapid draws scenarios against the repository's LibraryService and ContentService (all client forms incl. REST bindings with path variables, body and response_body selectors, HttpBody up/downloads; target protocol / codec / compression configurations; schema-driven messages; OK and error backends) and runs each against a reference Transcoder built with NewService (generated code) and against a variant that differs ONLY in how the schema is supplied: (a) NewServiceWithSchema with a fresh protodesc copy of the file, (b) the same with the google.api.http options re-parsed as dynamically typed extensions, (c) a type resolver that knows none of the types (dynamic fallback), (d) dynamic descriptors with the generated types as resolver, (e) a service descriptor wrapper without parent file. Oracle (differential): NewTranscoder succeeds for every variant, and client status, outcome, messages, headers, trailers and the backend-observed request (protocol, codec, compression, request line, messages) are identical to the reference. Non-trivial = the scenario exercises a REST binding or a JSON re-encode; distinct by hash(variant, scenario)."
+const ruleC20 = "rapid draws scenarios against the repository's LibraryService and ContentService (all client forms incl. REST bindings with path variables, body and response_body selectors, HttpBody up/downloads; target protocol / codec / compression configurations; schema-driven messages; OK and error backends) and runs each against a reference Transcoder built with NewService (generated code) and against a variant that differs ONLY in how the schema is supplied: (a) NewServiceWithSchema with a fresh protodesc copy of the file, (b) the same with the google.api.http options re-parsed as dynamically typed extensions, (c) a type resolver that knows none of the types (dynamic fallback), (d) dynamic descriptors with the generated types as resolver, (e) a service descriptor wrapper without parent file, (f) a newer revision of the files (every message gained a field) loaded under the SAME path as the linked-in generated files, compared with the same revision loaded under a path the global registry does not know, with messages that carry the added field. Oracle (differential): NewTranscoder succeeds for every variant, and client status, outcome, messages, headers, trailers and the backend-observed request (protocol, codec, compression, request line, messages) are identical to the reference. Non-trivial = the scenario exercises a REST binding or a JSON re-encode; distinct by hash(variant, scenario)."
 
 const (
 	librarySvc = "vanguard.test.v1.LibraryService"
